@@ -32,8 +32,8 @@ func (c06) Batches(tier string, seed uint64) []core.Batch {
 	b = append(b, spread("is", 4, 0)...)
 	b = append(b, core.Batch{Name: "real"})
 	b = append(b, spread("set", 13, 0)...)
-	b = append(b, spread("setrand", 2, tierN(tier, 2000, 40000))...)
-	b = append(b, spread("poss", 8, tierN(tier, 300, 5000))...)
+	b = append(b, spread("setrand", 2, tierN(tier, 10000, 60000))...)
+	b = append(b, spread("poss", 8, tierN(tier, 1500, 8000))...)
 	b = append(b, spread("sat", 6, 0)...)
 	return b
 }
